@@ -107,9 +107,6 @@ class C20(Check):
             return None
         if len(k) > 1:
             ctx.nontrivial += 1
-        ok = all(isinstance(x, int) if i % 2 else isinstance(x, str) for i, x in enumerate(k))
-        if not ok:
-            ctx.violation("key-shape", ["name", name], f"key {k!r} does not alternate str/int")
         ctx.outcome(h64(k))
         return k
 
